@@ -252,7 +252,7 @@ def c14_rpc(stream, res, impl):
     """every call returns the reply sent for its own id; storms return every caller's own token"""
     if stream["component"] != "rpc":
         return None
-    tok_id, sent = {}, {}
+    tok_id, sent, cancelled = {}, {}, set()
     for op, out in zip(res, impl):
         t = op.split()
         if len(t) < 2:
@@ -264,6 +264,10 @@ def c14_rpc(stream, res, impl):
                 sent[tok_id[t[2]]] = ("result", kv["early"])
         elif t[1] == "reply" and out == "ok":
             sent[int(t[2])] = (t[3], t[4] if len(t) > 4 else "")
+        elif t[1] == "cancel":
+            cancelled.add(t[2])
+        elif t[1] == "await" and out in ("pending", "err ctx") and t[2] not in cancelled and tok_id.get(t[2]) in sent:
+            return "call %s (id %s) never got the reply that was delivered for its id (%s)" % (t[2], tok_id.get(t[2]), out)
         elif t[1] == "await" and out.startswith("returned "):
             i = tok_id.get(t[2])
             got = out.split(" ", 1)[1]
@@ -302,4 +306,165 @@ def c13_persist(stream, res, impl):
             return "readers observed a ledger total that moved during a trial-balance migration: %s" % out
         if t[1] == "crash" and not out.startswith("ok crash-consistent"):
             return "state after kill -9 is not the state after the acknowledged operations (or one more)"
+    return None
+
+
+I64MAX, I64MIN = 2**63 - 1, -2**63
+
+
+def c02_billing(stream, res, impl):
+    """an accepted keep-alive of a light client on a trial balance debits it elapsed*price/interval per active peer"""
+    if stream["component"] != "pool":
+        return None
+    cfg = {}
+    prev, between = None, []
+    for op, out in zip(res, impl):
+        t = op.split()
+        if len(t) < 2:
+            continue
+        if t[1] == "cfg":
+            cfg = _kv(op)
+        if t[1] == "dump":
+            d = _dump(out)
+            if d is not None and prev is not None and len(between) == 1 and between[0][0].split()[1] == "update" \
+                    and between[0][1].startswith("ok ") and cfg.get("nobalance") == "0":
+                o = between[0][0]
+                who = o.split()[2]
+                kv = _kv(o)
+                nb0, nb1 = prev["nodes"].get(who), d["nodes"].get(who)
+                try:
+                    price, interval = int(cfg["price"]), int(cfg["interval"])
+                except (KeyError, ValueError):
+                    price, interval = 0, 0
+                if nb0 and not nb0["isHost"] and interval > 0 and price != 0 and who in prev["nb"] and who in d["nb"] \
+                        and prev["nb"][who][0] == "~" and d["nb"][who][0] == "~":
+                    mnow = int(kv["mnow"].split(":")[1])
+                    el = max(I64MIN, min(I64MAX, mnow - nb0["lastSeen"]))
+                    credit = (el * price) // interval
+                    peers = [x for x in d["peers"].get(who, [])]
+                    n = len(peers)
+                    if who in peers:
+                        n -= 1  # the client credits and debits itself for its own entry
+                    want = -credit * n
+                    got = d["nb"][who][1] - prev["nb"][who][1]
+                    if credit != 0 and got != want:
+                        return "keep-alive of %s: elapsed %d ns x price %d / interval %d = %d per peer, %d active peers: debit should be %d, balance moved by %d" % (
+                            who, el, price, interval, credit, len(peers), -want, got)
+            prev, between = d, []
+        else:
+            between.append((op, out))
+    return None
+
+
+def _registry_sim(res, impl):
+    """yield (op tokens, out, registry) with registry = host -> connection as the property defines it: the connection
+    of the host's most recent registration, unless that connection was closed since"""
+    reg = {}
+    for op, out in zip(res, impl):
+        t = op.split()
+        if len(t) < 2:
+            continue
+        if t[1] == "cfg":
+            reg = {}
+        if t[1] in ("connect", "host") and len(t) > 5:
+            conn, who, sig = t[2], t[3], t[5]
+            full = (t[6] == "1") if t[1] == "connect" else True
+            # the registration happens once the request is authenticated and its address accepted, before the
+            # balance check: an "err LowBalance" answer still registered the connection
+            if full and conn != "~" and (out == "ok" or out.startswith("err LowBalance")):
+                reg[who] = conn
+        if t[1] == "close" and len(t) > 2:
+            for h in [h for h, c in reg.items() if c == t[2]]:
+                del reg[h]
+        yield t, out, dict(reg)
+
+
+def c09_registry(stream, res, impl):
+    """NumRemotes = hosts with a live registration; whitelist/disconnect calls only go to such connections"""
+    if stream["component"] != "pool":
+        return None
+    for t, out, reg in _registry_sim(res, impl):
+        if t[1] == "dump":
+            d = _dump(out)
+            if d is not None and d["remotes"] != len(reg):
+                return "pool counts %d connected hosts, %d hosts have a live registered connection (%s)" % (d["remotes"], len(reg), sorted(reg.items()))
+        if t[1] in ("peer", "client", "update"):
+            okv = _kv(out)
+            for key in ("wl", "disconnect"):
+                for c in [c for c in okv.get(key, "").split(",") if c]:
+                    if c not in reg.values():
+                        return "%s call sent over connection %s, which no host is currently registered on (%s)" % (key, c, sorted(reg.items()))
+    return None
+
+
+def c08_acknowledged(stream, res, impl):
+    base = c08_peer_reply(stream, res, impl)
+    if base:
+        return base
+    if stream["component"] != "pool":
+        return None
+    for t, out, reg in _registry_sim(res, impl):
+        if t[1] in ("peer", "client") and out.startswith("ok hosts="):
+            kv, okv = _kv(" ".join(t)), _kv(out)
+            bad = {}
+            for e in [e for e in kv.get("outcomes", "").split(",") if e]:
+                c, o = e.split(":")
+                bad[c] = o
+            for h in [h for h in okv.get("hosts", "").split(",") if h]:
+                c = reg.get(h)
+                if c is None:
+                    return "returned host %s has no live registered connection" % h
+                if c in bad:
+                    return "returned host %s is registered on %s, whose whitelist call was scripted to %s" % (h, c, bad[c])
+    return None
+
+
+def c05_nonce(stream, res, impl):
+    """the nonces honoured for one identity are strictly increasing (so no request is honoured twice)"""
+    comp = stream["component"]
+    last = {}
+
+    def honour(ident, nonce, what):
+        if ident in last and nonce <= last[ident]:
+            return "identity %s: nonce %d honoured after nonce %d had been honoured (%s)" % (ident, nonce, last[ident], what[:160])
+        last[ident] = nonce
+        return None
+    for op, out in zip(res, impl):
+        t = op.split()
+        if len(t) < 2:
+            continue
+        if t[0] == "case":
+            last = {}
+            continue
+        if comp == "noncettl" and t[1] == "run":
+            evs = [x for x in t if x.startswith("ev=")]
+            if not evs or not out.startswith("verdicts="):
+                continue
+            vs = out[len("verdicts="):].split(",")
+            for e, v in zip(evs[0][3:].split(","), vs):
+                f = e.split(":")
+                if len(f) == 3 and v == "1":
+                    r = honour(f[0], int(f[1]), "replayed around the end of its freshness window, clock %s" % f[2])
+                    if r:
+                        return r
+            last = {}
+        elif comp == "store" and t[1] == "nonce" and len(t) >= 4 and out.startswith("ok"):
+            try:
+                r = honour(t[2], int(t[3].replace("t:", "")), op)
+            except ValueError:
+                r = None
+            if r:
+                return r
+        elif comp == "pool" and t[1] in ("connect", "update", "peer", "host", "client", "addnode", "withdraw"):
+            if out.startswith("err VerifyFailed") or out in ("noop", "") or "#skipped" in op:
+                continue
+            for i in range(2, len(t)):
+                if t[i].startswith("t:"):
+                    try:
+                        r = honour(t[i - 1], int(t[i][2:]), op)
+                    except ValueError:
+                        r = None
+                    if r:
+                        return r
+                    break
     return None
